@@ -31,6 +31,14 @@ CHECKS = {
          "Every Solve of generated programs and of wide level-parallel circuits (lookup tables, range checks, hints, specialised gates; both builders; task counts 1..512; systems restored from bytes) is re-evaluated independently: every exported row / gate / copy class on the returned solution, identical solutions across task counts, a Levels partition/dependency oracle derived from sequential semantics, and a harness-written sequential solver that must agree with Solve's verdict in both directions.",
          "Worker interleavings are sampled, not enumerated; systems whose hints draw randomness (commitments) are only checked by the validity predicate; the replay solver answers 'undetermined' (counted) when a row has more than one unknown.",
          "DESIGN.md §3 C06"),
+ "C07": ("property-based testing against a reference model of the struct layout (rapid, reflect.StructOf)",
+         "Circuit struct shapes are synthesised with reflect (nesting, arrays, slices, pointers, every tag combination, visibility conflicts) and assigned values of every accepted Go type; the generator's own plan of declared order and visibility decides the witness vector, the public-only witness, Witness.Public(), the input counts of both compiled systems, what each variable carries inside Define (pinned constants; exchanging two values must be noticed) and the binary / JSON round trips.",
+         "The dynamic struct hangs under a fixed Shell{Body any} holder; embedded structs and init-hook types (which reflect.StructOf cannot synthesise) are not generated.",
+         "DESIGN.md §3 C07"),
+ "C19": ("property-based differential testing + hint adversary on the GKR solve/prove hints (rapid)",
+         "Random GKR topologies (add/mul/neg/sub and custom gates, fan-out, Series dependencies, 2^k instances) on both builders and the test engine: exported values must equal direct in-circuit evaluation; with GkrInfo detached and the genuine hints wrapped, 10 forgery kinds (altered outputs, proofs of another statement, altered proof elements, an adaptive attack that learns the first challenge) must all be unsatisfiable; every solve runs under a watchdog.",
+         "Single-instance topologies do not compile on this tree (recorded as an observation, outside the property); a cheating sum-check prover is not built, so bugs only exploitable by fabricating round polynomials are out of reach.",
+         "DESIGN.md §3 C19"),
 }
 
 PENDING = {}
